@@ -548,6 +548,13 @@ func Main(args []string) int {
 		func() {
 			d.ckks(newCkks(ckks.ParametersLiteral{LogN: 6, LogQ: []int{55, 45}, LogDefaultScale: 40}, 4), "ckks-noP-16")
 		},
+		// 60-bit primes and two auxiliary primes: the lazily accumulated (hoisted) sums are closest to their overflow margins
+		func() {
+			d.ckks(newCkks(ckks.ParametersLiteral{LogN: 6, LogQ: []int{60, 60}, LogP: []int{61, 61}, LogDefaultScale: 40}, 5), "ckks-q60-2P")
+		},
+		func() {
+			d.bgv(newBgv(bgv.ParametersLiteral{LogN: 5, LogQ: []int{60, 60}, LogP: []int{61, 61}, PlaintextModulus: 193}), "bgv-2x16-q60-2P")
+		},
 	}
 	for i, j := range jobs {
 		if *part < 0 || *part == i {
